@@ -1,7 +1,7 @@
 (* C07 -- numbers are parsed exactly. Statements only. *)
 From Coq Require Import List ZArith Reals Lia.
 From Flocq Require Import Core.Core IEEE754.BinarySingleNaN.
-From SonicV Require Import Model.Number Model.Float Model.NumTables Model.SkipNum Gen.Tables Spec.Num Gen.Guards Model.GuardsOk Model.FloatMore.
+From SonicV Require Import Model.Number Model.Float Model.NumTables Model.SkipNum Gen.Tables Spec.Num Gen.Guards Model.GuardsOk Model.FloatMore Model.NumSpec.
 Import ListNotations.
 Open Scope Z_scope.
 
@@ -65,3 +65,17 @@ Theorem normal_fast_guard_in_source :
   (2 ^ 64 - 1) * 10 ^ (G_NF_HI - 1) < 2 ^ 1024 - 2 ^ 970 /\
   10 ^ (- (G_NF_LO + 1)) <= 2 ^ 1022.
 Proof. exact normal_fast_guard. Qed.
+
+(* the specification of "nearest" (Spec/Num.v), by integer arithmetic: the rounding quotient is the
+   unique nearest integer with ties to even, and the binade chosen for num/den contains it *)
+Theorem spec_quotient_is_nearest_even : forall a b, 0 <= a -> 0 < b ->
+  let q := rne_div a b in
+  0 <= q /\ 2 * Z.abs (a - q * b) <= b /\ (2 * Z.abs (a - q * b) = b -> Z.even q = true).
+Proof. exact rne_div_nearest. Qed.
+Theorem spec_quotient_unique : forall a b q, 0 <= a -> 0 < b ->
+  2 * Z.abs (a - q * b) <= b -> (2 * Z.abs (a - q * b) = b -> Z.even q = true) -> q = rne_div a b.
+Proof. exact rne_div_unique. Qed.
+Theorem spec_binade_contains_value : forall num den, 0 < num -> 0 < den ->
+  let E := binade num den in
+  (0 <= E -> den * 2 ^ E <= num < den * 2 ^ (E + 1)) /\ (E < 0 -> den <= num * 2 ^ (- E) < 2 * den).
+Proof. exact binade_correct. Qed.
